@@ -314,7 +314,11 @@ def finish(report: Report, seed: int = 0) -> int:
     }
     (evdir / f"{prop}.json").write_text(json.dumps(evidence, indent=1, default=str))
 
+    _printed = set()
     for o in listed:
+        if o.key() in _printed:
+            continue
+        _printed.add(o.key())
         k = known[o.key()]
         print(f"KNOWN-FINDING: property={prop} {o.construct}: {k.get('what', o.detail)}")
     for o, rp in zip(new_viol, replay_paths):
@@ -336,7 +340,7 @@ def finish(report: Report, seed: int = 0) -> int:
         return 2
     n = len(report.obls)
     print(
-        f"OK property={prop} tier={report.tier} obligations={n} discharged={n}"
+        f"OK property={prop} tier={report.tier} obligations={n} discharged={n - len(listed)}"
         f" known_findings={len(listed)} wall_s={evidence['wall_s']}"
     )
     return 0
